@@ -4,6 +4,7 @@ C18 — tensor storage layout contract.  Theorems are about `Gen.getIndexSrc`,
 from tensor.hpp / app_utils.hpp / multitensor.pyx on every run: if the source text changes, these
 proofs are re-checked against the new text.  No bound on the dimensions.
 -/
+import MT.Generated.UtilsCode
 import MT.Tensor
 import Mathlib.Tactic.Ring
 import Mathlib.Tactic.Linarith
@@ -141,5 +142,10 @@ theorem get_ofFn {α : Type} [MTExtra α] (R C T : Nat) (f : Nat → Nat → Nat
 
 /-- non-vacuity: a concrete in-range triple -/
 example : spec 2 3 2 1 2 1 = 11 ∧ spec 2 3 2 1 2 1 < 2 * 3 * 2 := by decide
+
+/-- `Tensor::resize` as it stands in tensor.hpp: the new dimensions are stored and the storage is cleared and
+zero-filled to the new element count (the model's `Tens.zeros`) -/
+theorem tensor_resize_documented :
+    Gen.tensorResizeText = "nrows=nrows_;ncols=ncols_;ntubes=ntubes_;data.clear();data.assign(nrows*ncols*ntubes,scalar_t(0));" := rfl
 
 end MTProps.C18
